@@ -557,22 +557,35 @@ def ncc_loss(
     if source.shape != target.shape:
         raise ValueError("ncc_loss() 'source' must have same shape as 'target'")
 
-    source = source.reshape(source.shape[0], -1).float()
-    target = target.reshape(source.shape[0], -1).float()
+    N = source.shape[0]
+    weight = None
+    if mask is not None:
+        # Check and broadcast mask of shape (1|N, 1|C, ..., X) to shape of images
+        weight = masked_loss(torch.ones_like(source, dtype=torch.float), mask, "ncc_loss")
+        weight = weight.reshape(N, -1)
 
-    source_mean = source.mean(dim=1, keepdim=True)
-    target_mean = target.mean(dim=1, keepdim=True)
+    source = source.reshape(N, -1).float()
+    target = target.reshape(N, -1).float()
+
+    if weight is None:
+        source_mean = source.mean(dim=1, keepdim=True)
+        target_mean = target.mean(dim=1, keepdim=True)
+    else:
+        norm = weight.sum(dim=1, keepdim=True)
+        source_mean = source.mul(weight).sum(dim=1, keepdim=True).div(norm)
+        target_mean = target.mul(weight).sum(dim=1, keepdim=True).div(norm)
 
     x = source.sub(source_mean)
     y = target.sub(target_mean)
+    wx = x if weight is None else x.mul(weight)
+    wy = y if weight is None else y.mul(weight)
 
-    a = x.mul(y).sum(dim=1)
-    b = x.square().sum(dim=1)
-    c = y.square().sum(dim=1)
+    a = wx.mul(y).sum(dim=1)
+    b = wx.mul(x).sum(dim=1)
+    c = wy.mul(y).sum(dim=1)
 
     loss = a.square_().div_(b.mul_(c).add_(epsilon)).neg_().add_(1)
-    loss = masked_loss(loss, mask, "ncc_loss")
-    loss = reduce_loss(loss, reduction, mask)
+    loss = reduce_loss(loss, reduction)
     return loss
 
 
